@@ -195,3 +195,40 @@ HEADER["C07"] = (HEADER["C07"][0], HEADER["C07"][1] + ["IR", "KernelSpecs", "Ker
 PLAN["C07"] += [(K3, "kv128_round_lane"), (K3, "kv128_round_inv_lane"), (K3, "kv128_round_blocks"), (K3, "kv128_round_inv_blocks")]
 HEADER["C06"] = (HEADER["C06"][0], HEADER["C06"][1] + ["IR", "KernelSpecs", "KernelSpecs3", "KernelHom", "KernelHom3"])
 PLAN["C06"] += [(K3, "kv128_round_lane"), (K3, "kv128_round_inv_lane")]
+
+# whole functions (tie T, structured IR): the statements that the obligations regenerated from the current source instantiate
+WB = "WholeBridge.v"; WK = "WholeKey.v"; SP = "SIRProofs.v"; SC = "SIRCheck.v"; FR = "Frame.v"
+WHI = ["IR", "SIR", "Anf", "IRCheck", "KernelSpecs", "KernelSpecs2", "KernelHom", "KernelHom2", "SIRCheck", "Frame", "WholeSpecs",
+       "SIRProofs", "KernelBridge", "WholeBridge", "WholeKey"]
+def add_imports(pid, mods):
+    HEADER[pid] = (HEADER[pid][0], HEADER[pid][1] + [m for m in mods if m not in HEADER[pid][1]])
+hand("interp_flat", """: forall (fields : list field) (callf : nat -> list bool -> list bool),
+  disjoint_fields fields -> NoDup fields ->
+  forall (fuel : nat) (p : list sstmt) (pl : list N) (sh : shadow) (m : mem bool) (loc : list (list bool)),
+  Inv fields sh m ->
+  interp fields callf fuel pl (m, loc) p
+  = match flat fields fuel pl sh p with
+    | Some (pl', sh', code, t) => Some (pl', exec bool xorb andb false true callf code (m, loc), t)
+    | None => None
+    end""")
+hand("interp_trace_public", """: forall (fields : list field) (callf : nat -> list bool -> list bool),
+  disjoint_fields fields -> NoDup fields ->
+  forall (fuel : nat) (p : list sstmt) (pl : list N) (sh : shadow) (m1 m2 : mem bool) (loc1 loc2 : list (list bool))
+         (pl1 : list N) (st1 : mem bool * list (list bool)) (t1 : list event)
+         (pl2 : list N) (st2 : mem bool * list (list bool)) (t2 : list event),
+  Inv fields sh m1 -> Inv fields sh m2 ->
+  interp fields callf fuel pl (m1, loc1) p = Some (pl1, st1, t1) ->
+  interp fields callf fuel pl (m2, loc2) p = Some (pl2, st2, t2) ->
+  t1 = t2 /\\ pl1 = pl2""")
+hand("interp_defined_public", """: forall (fields : list field) (callf : nat -> list bool -> list bool),
+  disjoint_fields fields -> NoDup fields ->
+  forall (fuel : nat) (p : list sstmt) (pl : list N) (sh : shadow) (m1 m2 : mem bool) (loc1 loc2 : list (list bool)),
+  Inv fields sh m1 -> Inv fields sh m2 ->
+  (interp fields callf fuel pl (m1, loc1) p = None <-> interp fields callf fuel pl (m2, loc2) p = None)""")
+FINALS = [(WB, "enc128_final"), (WB, "dec128_final"), (WB, "enc64_final"), (WB, "dec64_final")]
+KEYF = [(WK, "obs_final"), (WK, "reject_final")]
+CTT = [(SP, "interp_flat"), (SP, "interp_trace_public"), (SP, "interp_defined_public")]
+for pid, items in (("C01", FINALS + KEYF[:1]), ("C03", FINALS[1:2] + FINALS[3:4]), ("C04", KEYF), ("C08", CTT + FINALS[:1] + KEYF),
+                   ("C10", KEYF), ("C12", FINALS + KEYF)):
+    if pid in PLAN:
+        add_imports(pid, WHI); PLAN[pid] += items
